@@ -141,10 +141,11 @@ BlockRef(s, tabs) == Q3 \o <<cLF>> \o tabs \o ReIndent(EscTriple(s, 1), tabs) \o
 DescRef(s, tabs) == IF BlockSafe(s) THEN BlockRef(s, tabs) ELSE QuotedRef(s)
 
 \* ---- today's printers --------------------------------------------------------------------------------
-\* export_sdl.rs escape_string (deprecation reasons): \\ \b \f \n \r \t, nothing else
-EscapeStringChar(c) == CASE c = cBS -> <<cBS, cBS>> [] c = 8 -> <<cBS, 98>> [] c = 12 -> <<cBS, 102>> [] c = cLF -> <<cBS, 110>>
-                         [] c = cCR -> <<cBS, 114>> [] c = cTAB -> <<cBS, 116>> [] OTHER -> <<c>>
-ReasonDev(s) == <<cQ>> \o MapCat(EscapeStringChar, s, 1) \o <<cQ>>
+\* export_sdl.rs escape_string (deprecation reasons): \\ \" \b \f \n \r \t
+\* (the quotation mark was left unescaped until /repo commit 0c87432; no deviation is left here)
+EscapeStringChar(c) == CASE c = cBS -> <<cBS, cBS>> [] c = cQ -> <<cBS, cQ>> [] c = 8 -> <<cBS, 98>> [] c = 12 -> <<cBS, 102>>
+                         [] c = cLF -> <<cBS, 110>> [] c = cCR -> <<cBS, 114>> [] c = cTAB -> <<cBS, 116>> [] OTHER -> <<c>>
+ReasonToday(s) == <<cQ>> \o MapCat(EscapeStringChar, s, 1) \o <<cQ>>
 \* export_sdl.rs write_description
 QuoteOnlyChar(c) == IF c = cQ THEN <<cBS, cQ>> ELSE <<c>>
 DescDev(s, tabs, preferSingleLine) ==
@@ -159,7 +160,6 @@ ValueChar(c) == CASE c = cCR -> <<cBS, 114>> [] c = cLF -> <<cBS, 110>> [] c = c
 DefaultToday(s) == <<cQ>> \o MapCat(ValueChar, s, 1) \o <<cQ>>
 
 \* ---- trigger predicates: exactly the strings each of today's printers gets wrong (checked in mode M) --------
-ReasonTrigger(s) == Has(s, cQ)
 SingleLineTrigger(s) == Has(s, cBS) \/ Has(s, cCR)
 BlockTrigger(s) == HasTriple(s) \/ ~BlockSafe(s)
 DescTrigger(s, preferSingleLine) == IF preferSingleLine /\ ~Has(s, cLF) THEN SingleLineTrigger(s) ELSE BlockTrigger(s)
@@ -217,8 +217,31 @@ DirectiveFacts(ts) ==
                \cup UNION { {Fact(n, "", a, "arg", TyText(d.args[a].ty), <<>>)} \cup DocFacts(n, "", a, d.args[a])
                             \cup DefaultFacts(n, "", a, d.args[a]) : a \in DOMAIN d.args }
              : n \in DOMAIN ts.directives }
+\* A schema with federation enabled (ts.federation = [entities |-> <<names of the types with @key>>]) also has the
+\* system types _Any, _Service and (when there are entities) _Entity, and the root fields _service / _entities.
+\* They are part of the schema: an export WITHOUT the `federation` option must define them (otherwise the
+\* document refers to types it does not define); an export WITH the option leaves types and fields out
+\* (subgraph SDL).  The description of _Any is the library's own text and is not judged.
+FedEnabled(ts) == "federation" \in DOMAIN ts
+FederationFacts(ts, opts) ==
+  IF ~FedEnabled(ts) \/ opts.federation THEN {}
+  ELSE LET ents == ts.federation.entities
+           q == ts.query
+       IN {Fact("_Any", "", "", "kind", "SCALAR", <<>>), Fact("_Service", "", "", "kind", "OBJECT", <<>>),
+           Fact("_Service", "sdl", "", "field", "String", <<>>), Fact(q, "_service", "", "field", "_Service!", <<>>)}
+          \cup (IF Len(ents) = 0 THEN {}
+                ELSE {Fact("_Entity", "", "", "kind", "UNION", <<>>), Fact(q, "_entities", "", "field", "[_Entity]!", <<>>),
+                      Fact(q, "_entities", "representations", "arg", "[_Any!]!", <<>>)}
+                     \cup {Fact("_Entity", "", "", "member", ents[i], <<>>) : i \in DOMAIN ents})
 Describe(ts, opts) ==
-  UNION {TypeFacts(n, ts.types[n], opts) : n \in DOMAIN ts.types \ Builtin} \cup DirectiveFacts(ts)
+  UNION {TypeFacts(n, ts.types[n], opts) : n \in DOMAIN ts.types \ Builtin} \cup DirectiveFacts(ts) \cup FederationFacts(ts, opts)
+
+\* Closure: every type an exported document names (field, argument and input-field types, union members,
+\* implemented interfaces: the harness logs them as facts what = "ref" / "member" / "implements") is defined in
+\* the document or is a built-in scalar.
+DefinedIn(O) == {o.t : o \in {x \in O : x.what = "kind"}}
+ReferencedIn(O) == {o.s : o \in {x \in O : x.what \in {"ref", "member", "implements"}}}
+Undefined(O) == ReferencedIn(O) \ (DefinedIn(O) \cup Builtin)
 \* Under `federation` the subscription root may be left out (subgraph SDL; Registry::federation_subscription).
 OptionalFacts(ts, opts) ==
   IF opts.federation /\ ts.subscription # "" THEN {e \in Describe(ts, opts) : e.t = ts.subscription} ELSE {}
@@ -229,14 +252,14 @@ Level(e) == IF e.a # "" /\ e.f # "" THEN 2 ELSE IF e.f # "" \/ e.a # "" THEN 1 E
 IsStringFact(e) == e.what \in {"desc", "specifiedBy"} \/ (e.what = "deprecated" /\ e.s = "reason") \/ (e.what = "default" /\ e.s = "str")
 TodayToken(e, opts) ==
   CASE e.what = "desc" -> DescDev(e.cp, Repeat(Tabs(opts), Level(e)), opts.prefer_single_line_descriptions)
-    [] e.what = "deprecated" -> ReasonDev(e.cp)
+    [] e.what = "deprecated" -> ReasonToday(e.cp)
     [] e.what = "default" -> DefaultToday(e.cp)
     [] e.what = "specifiedBy" -> SpecifiedByDev(e.cp)
 Broken(e, opts) == IsStringFact(e) /\ ~Roundtrips(TodayToken(e, opts), e.cp)
 DevOf(e, opts) ==
   CASE e.what = "desc" -> (IF opts.prefer_single_line_descriptions /\ ~Has(e.cp, cLF) THEN "DevDescSingleLineNotEscaped"
                            ELSE IF HasTriple(e.cp) THEN "DevDescBlockTripleQuote" ELSE "DevDescBlockWhitespaceLost")
-    [] e.what = "deprecated" -> "DevReasonQuoteNotEscaped"
+    [] e.what = "deprecated" -> "DevNone"       \* never broken: mode M InvReasonToday
     [] e.what = "default" -> "DevNone"          \* never broken: mode M InvDefaultToday
     [] e.what = "specifiedBy" -> "DevSpecifiedByNotEscaped"
 =============================================================================
